@@ -416,18 +416,14 @@ class Prog:
         for fn in ('nundb.json', 'nun_db.json'):
             with open(os.path.join(facts_dir, fn)) as fh:
                 texts.append(fh.read())
-        parsed = [json.loads(x) for x in texts]
-        # rename normalisation (symbols.py): functions of the reference tree that are missing here are
-        # matched by fingerprint against the functions the reference does not know
+        # rename normalisation (symbols.py): types, variants, fields and functions of the reference tree
+        # that are missing here are matched structurally against the ones the reference does not know
         self.renamed = []
         if normalise:
             from . import symbols
-            ref = symbols.load_ref()
-            if ref:
-                mapping, log = symbols.match(ref, symbols.fingerprints(parsed))
-                if mapping:
-                    parsed = [json.loads(x) for x in symbols.rewrite(texts, mapping)]
-                    self.renamed = log
+            parsed, self.renamed = symbols.normalise(texts)
+        else:
+            parsed = [json.loads(x) for x in texts]
         for d in parsed:
             self.crates.append(d['crate'])
             self.n_calls += d['n_calls']
